@@ -30,6 +30,7 @@ type Module struct {
 	Pkg        *Package
 	Want       []string // "Identity", "Matrix4x4.Add" in spec order
 	Tables     []string // "edges" or "Func.local"
+	Types      []string // struct types whose Record this module owns (`type` lines)
 	SpecFile   string
 
 	// filled during translation
@@ -194,6 +195,11 @@ func (w *World) readSpec(path string) error {
 				return bad()
 			}
 			cur.Tables = append(cur.Tables, f[1])
+		case "type":
+			if cur == nil || len(f) != 2 {
+				return bad()
+			}
+			cur.Types = append(cur.Types, f[1])
 		default:
 			return bad()
 		}
